@@ -40,6 +40,25 @@ Theorem C04_single_flight : forall zone next max l s c,
 Proof. exact sch_thm_single_flight. Qed.
 Print Assumptions C04_single_flight.
 
+(* the single-flight guard can never wedge: m_CheckRunning is set exactly while one execution is between
+   test-and-set and its ProcessCheckResult entry; that entry (accepted OR rejected result - the clear is the first
+   statement of ProcessCheckResult) is always enabled and clears the flag; with the flag clear the next ExecuteCheck
+   starts the command *)
+Theorem C04_no_wedge : forall zone next max l s c,
+  0 <= max -> sch_run (sch_init zone next max) l = Some s ->
+  (sch_running (sch_cks s c) = true ->
+     sch_cnt (c, SchTRunning) (sch_tasks s) = 1%nat /\
+     forall v, exists s', sch_exec s (SchATaskResult c v) = Some s' /\ sch_running (sch_cks s' c) = false) /\
+  (sch_running (sch_cks s c) = false -> sch_has (c, SchTUpdated) (sch_tasks s) = true ->
+     exists s', sch_exec s (SchATaskTas c) = Some s' /\ sch_observe s (SchATaskTas c) = [SchEvStart (sch_zid c)]).
+Proof. exact sch_thm_no_wedge. Qed.
+Print Assumptions C04_no_wedge.
+
+Theorem C04_result_clears_flag : forall s c v s',
+  sch_exec s (SchATaskResult c v) = Some s' -> sch_running (sch_cks s' c) = false.
+Proof. exact sch_thm_result_clears. Qed.
+Print Assumptions C04_result_clears_flag.
+
 (* running <= dispatched-and-not-counted-down <= pending-check counter <= max_concurrent_checks *)
 Theorem C04_concurrency : forall zone next max l s,
   0 <= max -> sch_run (sch_init zone next max) l = Some s ->
